@@ -11,7 +11,7 @@ PROP = dict(
                "the interval it denotes; minMaxViews must bracket the view list a time field really has (including the view 'standard'). At API level "
                "bits set with timestamps through Set and Import are read with Row(f=r, from, to) and Rows(f, from, to) and compared with the model "
                "'columns/rows with a timestamp in the range'. The window enumeration is complete for its stated bounds; everything else is exploration.",
-    level_note="Trusted: Go toolchain (time.Date normalisation), rapid, the 60-line interval parser in gt_timekit_test.go. Open-ended ranges (missing from or to) depend "
+    level_note="Trusted: Go toolchain (time.Date normalisation), rapid, the 60-line interval parser in gt_timekit_test.go. Rows(f, to=T) without from is included (lower end = earliest view); ranges without to and Row(f=r, to=T) without from depend "
                "on the wall clock and are excluded. Ranges not aligned to the finest unit are outside the property statement.",
     rule="window: (quantum, start, length) triples, start aligned to the finest unit (H: hourly 2019-11..2021-03, quick tier +-36h around each of the 15 month "
          "boundaries; D: daily; M: 2018-2022; Y: 2014-2025), length 0..40h/70d/30mo/4y; edges: (quantum, start, end) with both endpoints within 2 finest units of a month/year boundary or 28 Feb, "
